@@ -228,6 +228,21 @@ static int g_total_sent;
 static ns_dgram_t *g_pending; /* datagram being handed to coap_socket_recv */
 static int g_pending_owned;   /* epoll path: recv frees it after copying */
 static struct ns_sock *g_pending_sk;
+/* epoll path: datagrams that have "arrived" at their sockets and wait to be read; at most one per socket, so that a socket's
+ * datagrams stay in order.  All of them are reported by one epoll_wait (up to its max), like a kernel would. */
+#define NS_EPQ 16
+static struct {
+  ns_dgram_t *d;
+  struct ns_sock *sk;
+  int reported;
+} g_epq[NS_EPQ];
+static int g_nepq;
+static void
+epq_remove(int i) {
+  for (int j = i; j + 1 < g_nepq; j++)
+    g_epq[j] = g_epq[j + 1];
+  g_nepq--;
+}
 int ns_send_fail_next;
 void (*ns_on_send)(const ns_dgram_t *d);
 void (*ns_on_deliver)(const ns_dgram_t *d);
@@ -478,6 +493,21 @@ __wrap_coap_socket_recv(coap_socket_t *sock, coap_packet_t *packet) {
     errno = ECONNREFUSED;
     return -2;
   }
+  for (int i = 0; i < g_nepq; i++)
+    if (g_epq[i].sk && g_epq[i].sk->sock == sock) {
+      ns_dgram_t *qd = g_epq[i].d;
+      epq_remove(i);
+      size_t qn = qd->len > COAP_RXBUFFER_SIZE ? COAP_RXBUFFER_SIZE : qd->len;
+      memcpy(packet->payload, qd->data, qn);
+      packet->length = qn;
+      if (!(sock->flags & COAP_SOCKET_CONNECTED)) {
+        coap_address_copy(&packet->addr_info.remote, &qd->src);
+        packet->addr_info.local.addr.sin.sin_addr = qd->dst.addr.sin.sin_addr;
+        packet->ifindex = 1;
+      }
+      dg_free(qd);
+      return (ssize_t)qn;
+    }
   if (!g_pending || !g_pending_sk || g_pending_sk->sock != sock) {
     errno = EAGAIN;
     return -1;
@@ -648,6 +678,11 @@ __wrap_coap_socket_close(coap_socket_t *sock) {
     }
     if (g_pending_sk == k)
       g_pending_sk = NULL;
+    for (int i = g_nepq - 1; i >= 0; i--)
+      if (g_epq[i].sk == k) {
+        dg_free(g_epq[i].d);
+        epq_remove(i);
+      }
 #ifdef COAP_EPOLL_SUPPORT
     ns_epoll_forget(k->fd);
 #endif
@@ -949,26 +984,21 @@ epoll_ctl(int epfd, int op, int fd, struct epoll_event *event) {
   }
   return 0;
 }
-/* non-blocking: one EPOLLIN event for the destination socket of the oldest in-flight datagram */
+/* non-blocking: EPOLLIN events for the sockets at which datagrams have arrived: in-flight datagrams are moved, oldest
+ * first, to their destination sockets (one waiting datagram per socket; the move stops at the first datagram whose socket is
+ * still occupied, so order is kept), and every occupied socket is reported, up to max.  A datagram that was reported twice and
+ * not read (the library did not want it) is dropped. */
 int
 ns_epoll_fill(struct epoll_event *ev, int max) {
   if (max < 1)
     return 0;
-  for (;;) {
-    if (g_pending && g_pending_sk && g_pending_sk->sock) {
-      ev[0].events = EPOLLIN;
-      ev[0].data.ptr = g_pending_sk->sock;
-      return 1;
+  for (int i = g_nepq - 1; i >= 0; i--)
+    if (!g_epq[i].sk || !g_epq[i].sk->sock || g_epq[i].reported >= 2) {
+      dg_free(g_epq[i].d);
+      epq_remove(i);
     }
-    if (g_pending) { /* stale */
-      dg_free(g_pending);
-      g_pending = NULL;
-    }
-    if (g_nflight == 0)
-      return 0;
-    ns_dgram_t *d = flight_take(0);
-    if (ns_on_deliver)
-      ns_on_deliver(d);
+  while (g_nflight > 0 && g_nepq < NS_EPQ) {
+    ns_dgram_t *d = g_flight[0];
     struct ns_sock *best = NULL;
     for (int i = 0; i < NS_MAXSOCK && !best; i++) {
       struct ns_sock *k = &g_socks[i];
@@ -981,16 +1011,33 @@ ns_epoll_fill(struct epoll_event *ev, int max) {
           (addr_is_any(&k->local) || addr_is_mcast(&d->dst) || k->local.addr.sin.sin_addr.s_addr == d->dst.addr.sin.sin_addr.s_addr))
         best = k;
     }
+    int occupied = 0;
+    for (int i = 0; i < g_nepq && best; i++)
+      occupied |= g_epq[i].sk == best;
+    if (occupied)
+      break;
+    d = flight_take(0);
+    if (ns_on_deliver)
+      ns_on_deliver(d);
     if (!best) {
       if (ns_raw_rx)
         ns_raw_rx(d);
       dg_free(d);
       continue;
     }
-    g_pending = d; /* owned by netsim until consumed by coap_socket_recv (freed there) */
-    g_pending_sk = best;
-    g_pending_owned = 1;
+    g_epq[g_nepq].d = d;
+    g_epq[g_nepq].sk = best;
+    g_epq[g_nepq].reported = 0;
+    g_nepq++;
   }
+  int n = 0;
+  for (int i = 0; i < g_nepq && n < max; i++) {
+    ev[n].events = EPOLLIN;
+    ev[n].data.ptr = g_epq[i].sk->sock;
+    g_epq[i].reported++;
+    n++;
+  }
+  return n;
 }
 int
 epoll_wait(int epfd, struct epoll_event *ev, int max, int timeout) {
@@ -1192,6 +1239,10 @@ ns_fini(void) {
   if (g_pending && g_pending_owned)
     dg_free(g_pending);
   g_pending = NULL;
+  while (g_nepq) {
+    dg_free(g_epq[0].d);
+    epq_remove(0);
+  }
   while (g_nflight)
     dg_free(flight_take(0));
   for (int i = 0; i < g_nstreams; i++) {
